@@ -238,7 +238,7 @@ def run(prog, rep):
     rep.part(shared, prog, rep)
     rep.expect_min("C18.guard", 27)
     rep.expect_min("C18.hierarchy", 7)
-    rep.expect_min("C18.shared", 20)
+    rep.expect_min("C18.shared", 21)
 
 
 # ------------------------------------------------------ conditional_on in [0, i)
@@ -395,3 +395,8 @@ def shared(prog, rep):
     c10.refs_guard(prog, f)
     f = _Filter(rep, lambda rule, inst: rule == "C10.min")
     c10.minimum(prog, f)
+    # an unknown fit method is rejected for a conditional variable too: every interval is fitted through the template's own
+    # fit(interval_data, method, weights), the dispatcher that raises (the per-interval row of C09.intervals)
+    from . import c09
+    f = _Filter(rep, lambda rule, inst: rule == "C09.intervals" and inst.endswith(":per-interval"))
+    c09.intervals(prog, f)
